@@ -168,7 +168,7 @@ Print Assumptions C19_digest.
 
 (* ... instantiated with the executable Tree.digest of Model/Listing.v (md5 of the canonical JSON
    of the listing, ".dir"): this instance is what the correspondence runs against merge() *)
-Theorem C19_digest_md5 : ∀ (hexof : N → list N) (load : list N → option (gmap (list (list N)) N))
+Theorem C19_digest_md5 : ∀ (hexof : N → list N * list N) (load : list N → option (gmap (list (list N)) N))
     ai oi ti pol id m,
   merge_tree hexof load ai oi ti pol = Ok (id, m) →
   ∃ a o t, loaded_anc load ai a ∧ load oi = Some o ∧ load ti = Some t ∧
